@@ -241,10 +241,14 @@ func (e *Engine) worker(h *harnessRun) {
 		h.mu.Unlock()
 		return
 	}
-	defer solver.Close()
 	local := newStats()
 	defer func() {
-		local.Solver = solver.Stats
+		solver.Close()
+		local.Solver.Sat += solver.Stats.Sat
+		local.Solver.Unsat += solver.Stats.Unsat
+		local.Solver.Unknown += solver.Stats.Unknown
+		local.Solver.Errors += solver.Stats.Errors
+		local.Solver.Time += solver.Stats.Time
 		h.mu.Lock()
 		h.res.Stats.merge(local)
 		h.mu.Unlock()
@@ -274,6 +278,25 @@ func (e *Engine) worker(h *harnessRun) {
 		h.mu.Unlock()
 
 		e.runPath(h, solver, prefix, local)
+		if solver.Dead {
+			// the solver was killed by the watchdog: start a fresh one for the next path
+			local.Solver.Sat += solver.Stats.Sat
+			local.Solver.Unsat += solver.Stats.Unsat
+			local.Solver.Unknown += solver.Stats.Unknown
+			local.Solver.Errors += solver.Stats.Errors
+			local.Solver.Time += solver.Stats.Time
+			solver.Close()
+			ns, err := NewSolver(e.Cfg.SolverArgv, e.Cfg.QueryTimeoutMs, e.Cfg.SolverLog)
+			if err != nil {
+				h.mu.Lock()
+				h.res.Inconclusive = append(h.res.Inconclusive, "cannot restart solver: "+err.Error())
+				h.inflight--
+				h.mu.Unlock()
+				h.cond.Broadcast()
+				return
+			}
+			solver = ns
+		}
 
 		h.mu.Lock()
 		h.inflight--
